@@ -435,6 +435,11 @@ impl<
         let mut drain = || -> Result<u64, ListenerWaitError> {
             fail!(from self, when self.waiter.empty_buffer(),
                 "{msg} since the wait buffer could not be emptied.");
+            // a notifier that moved the state from idle to pending after the reset below and
+            // whose trigger was just consumed must not leave the state in notified, otherwise
+            // all following notifiers skip the trigger while the listener waits for it
+            mgmt.notification_state
+                .store(NOTIFICATION_STATE_IDLE, Ordering::SeqCst);
             Ok(self.storage.get().event.drain(&mut callback))
         };
 
